@@ -135,9 +135,65 @@ func writer(conn net.Conn, seed int64, sess, dir int, sizes []int, tag []byte, r
 	}
 }
 
-// RunTransfer runs the scripts concurrently, one proxy connection each, over the world's client
+// Endpoints is what a transfer needs from a pair of real endpoints.
+type Endpoints interface {
+	// DialScript opens the proxy connection for script k; tag (may be nil) is prepended to the
+	// client's first write so that the accepting side can identify the script.
+	DialScript(ctx context.Context, k int) (conn net.Conn, tag []byte, err error)
+	// AcceptScript accepts one proxy connection and says which script it belongs to (-1 = unknown).
+	AcceptScript(nscripts int, timeout time.Duration) (conn net.Conn, k int, err error)
+}
+
+// DialScript / AcceptScript for bare protocol.Mux endpoints: a 4-byte tag identifies the script.
+func (w *World) DialScript(ctx context.Context, k int) (net.Conn, []byte, error) {
+	conn, err := w.Dial(ctx)
+	var tag [4]byte
+	binary.BigEndian.PutUint32(tag[:], uint32(k))
+	return conn, tag[:], err
+}
+
+func (w *World) AcceptScript(n int, timeout time.Duration) (net.Conn, int, error) {
+	conn, err := w.Server.Accept()
+	if err != nil {
+		return nil, -1, err
+	}
+	var tag [4]byte
+	conn.SetReadDeadline(time.Now().Add(timeout))
+	if _, err := io.ReadFull(conn, tag[:]); err != nil {
+		return conn, -1, nil
+	}
+	conn.SetReadDeadline(time.Time{})
+	k := int(binary.BigEndian.Uint32(tag[:]))
+	if k < 0 || k >= n {
+		return conn, -1, nil
+	}
+	return conn, k, nil
+}
+
+// DialScript / AcceptScript for the exported APIs: the SOCKS5 destination port identifies the script.
+func (w *APIWorld) DialScript(ctx context.Context, k int) (net.Conn, []byte, error) {
+	conn, err := w.Dial(ctx, &net.TCPAddr{IP: net.IPv4(192, 0, 2, 1), Port: 1000 + k})
+	return conn, nil, err
+}
+
+func (w *APIWorld) AcceptScript(n int, timeout time.Duration) (net.Conn, int, error) {
+	conn, req, err := w.AcceptAndReply()
+	if err != nil {
+		if conn != nil {
+			return conn, -1, nil
+		}
+		return nil, -1, err
+	}
+	k := int(req.DstAddr.Port) - 1000
+	if k < 0 || k >= n {
+		return conn, -1, nil
+	}
+	return conn, k, nil
+}
+
+// RunTransfer runs the scripts concurrently, one proxy connection each, over the endpoints' client
 // and server. It returns when every reader finished or the timeout expired.
-func RunTransfer(w *World, scripts []Script, seed int64, timeout time.Duration) *TransferResult {
+func RunTransfer(w Endpoints, scripts []Script, seed int64, timeout time.Duration) *TransferResult {
 	res := &TransferResult{Sessions: make([]SessionResult, len(scripts))}
 	for i := range res.Sessions {
 		res.Sessions[i].C2S.MismatchAt = -1
@@ -163,7 +219,7 @@ func RunTransfer(w *World, scripts []Script, seed int64, timeout time.Duration) 
 	// server side
 	go func() {
 		for {
-			conn, err := w.Server.Accept()
+			conn, k, err := w.AcceptScript(len(scripts), timeout)
 			if err != nil {
 				return
 			}
@@ -174,25 +230,15 @@ func RunTransfer(w *World, scripts []Script, seed int64, timeout time.Duration) 
 				return
 			default:
 			}
+			if k < 0 {
+				resMu.Lock()
+				res.Unknown++
+				resMu.Unlock()
+				continue
+			}
 			wg.Add(1)
-			go func(conn net.Conn) {
+			go func(conn net.Conn, k int) {
 				defer wg.Done()
-				var tag [4]byte
-				conn.SetReadDeadline(time.Now().Add(timeout))
-				if _, err := io.ReadFull(conn, tag[:]); err != nil {
-					resMu.Lock()
-					res.Unknown++
-					resMu.Unlock()
-					return
-				}
-				conn.SetReadDeadline(time.Time{})
-				k := int(binary.BigEndian.Uint32(tag[:]))
-				if k < 0 || k >= len(scripts) {
-					resMu.Lock()
-					res.Unknown++
-					resMu.Unlock()
-					return
-				}
 				sc := scripts[k]
 				sr := &res.Sessions[k]
 				sr.Accepted = true
@@ -211,7 +257,7 @@ func RunTransfer(w *World, scripts []Script, seed int64, timeout time.Duration) 
 				if sc.ServerClose {
 					conn.Close()
 				}
-			}(conn)
+			}(conn, k)
 		}
 	}()
 
@@ -223,7 +269,7 @@ func RunTransfer(w *World, scripts []Script, seed int64, timeout time.Duration) 
 			sc := scripts[k]
 			sr := &res.Sessions[k]
 			dctx, dcancel := context.WithTimeout(ctx, timeout)
-			conn, err := w.Dial(dctx)
+			conn, tagBytes, err := w.DialScript(dctx, k)
 			dcancel()
 			if err != nil {
 				sr.DialErr = err.Error()
@@ -231,17 +277,15 @@ func RunTransfer(w *World, scripts []Script, seed int64, timeout time.Duration) 
 				return
 			}
 			all.add(conn)
-			var tag [4]byte
-			binary.BigEndian.PutUint32(tag[:], uint32(k))
 			var inner sync.WaitGroup
 			inner.Add(2)
 			cw := sc.ClientWrites
 			if len(cw) == 0 {
-				cw = []int{0} // the tag must be written for the server to identify the session
+				cw = []int{0} // something must be written for the server side to see the session
 			}
 			go func() {
 				defer inner.Done()
-				writer(conn, seed, k, 0, cw, tag[:], &sr.C2S)
+				writer(conn, seed, k, 0, cw, tagBytes, &sr.C2S)
 				if sc.ClientClose {
 					// wait for our own reads first, else closing would cut the server's stream
 				}
